@@ -455,6 +455,66 @@ func c12CheckGroup(c c12GroupCase) engine.Result {
 	return res
 }
 
+// ---- scenario "long-grouping-chains": the optional fields behind a chain that nearly fills the EBP --------
+
+type c12ChainCase struct {
+	N int `json:"grouping_ids"`
+}
+
+// c12CheckChain: CableLabs EBPs whose grouping chain has N ids, with every combination of SAP, time and
+// partitions behind it and 0..2 reserved bytes, as long as the EBP fits data_field_length <= 255 (the
+// time, the partitions byte and the reserved bytes then sit at offsets up to 256).
+func c12CheckChain(c c12ChainCase) engine.Result {
+	var res engine.Result
+	rec := &c12Rec{res: &res}
+	chain := make([]byte, c.N)
+	for i := range chain {
+		chain[i] = byte(0x20 + i%0x50)
+	}
+	if c.N > 2 {
+		chain[c.N/2] = 0x1D
+	}
+	for flags := 0; flags < 8; flags++ {
+		for rl := 0; rl <= 2; rl++ {
+			m := ref.EBP{Tag: ref.EBPTagCableLabs, Seconds: 0xD6EE7BD8, Fraction: 0x8DC714FC, SAP: 0x60, Ext: 0x80, Partitions: 0x03, Grouping: chain}
+			fb := byte(0x10) // grouping
+			if flags&1 != 0 {
+				fb |= 0x20 // SAP
+			}
+			if flags&2 != 0 {
+				fb |= 0x08 // time
+			}
+			if flags&4 != 0 {
+				fb |= 0x01 // extension (with the partition flag in the extension byte)
+			}
+			m.SetFlagsByte(fb)
+			m.Reserved = c12Reserved(rl)
+			in := ref.BuildEBP(&m)
+			if len(in) > 257 {
+				continue
+			}
+			res.Evals++
+			res.Nontrivial++
+			var got ebp.EncoderBoundaryPoint
+			var err error
+			if engine.Guard(&res, "decode", func() { got, err = ebp.ReadEncoderBoundaryPoint(in) }) {
+				return res
+			}
+			if err != nil || got == nil || reflect.ValueOf(got).IsNil() {
+				rec.failf("decode|cablelabs,long-grouping-chain|error-on-well-formed", "%d grouping ids, flags %#x, %d reserved bytes (%d bytes in all): err=%v", c.N, fb, rl, len(in), err)
+				continue
+			}
+			if engine.Guard(&res, "decode-getters-reencode", func() {
+				c12CheckDecoded(rec, "decode", "cablelabs,long-grouping-chain", "", &m, got, in)
+			}) {
+				return res
+			}
+		}
+	}
+	res.Outcome(c.N / 16)
+	return res
+}
+
 func c12Head2(n int) int {
 	if n > 24 {
 		return 24
@@ -1157,6 +1217,16 @@ func init() {
 					}
 				},
 				Check: c12CheckGroup, Batch: 1,
+			},
+			&engine.Enum[c12ChainCase]{
+				Name: "long-grouping-chains",
+				Rule: "CableLabs EBPs with a grouping chain of N ids for every N in 1..250 x every combination of SAP / time / extension+partitions behind the chain x 0..2 reserved bytes, whenever the whole EBP still fits data_field_length <= 255 (the fields behind the chain then sit at offsets up to 256); oracle of decode-reencode",
+				Gen: func(r *engine.Run, emit func(c12ChainCase)) {
+					for n := 1; n <= 250; n++ {
+						emit(c12ChainCase{n})
+					}
+				},
+				Check: c12CheckChain, Batch: 4,
 			},
 			&engine.Enum[c12DecTimeCase]{
 				Name:  "decode-time",
